@@ -424,9 +424,19 @@ func TestC01Upload(t *testing.T) {
 				if framing == "shortbody" && len(T) > 0 {
 					cut := rapid.IntRange(0, len(T)-1).Draw(t, "bodyCut")
 					out = rawHTTPShortPut(s, "/cas/"+d.Hash, hdr, len(T), T[:cut])
-					verdict = "reject"
 					corr += "+shortbody"
-					Lok = false // the transport was cut: no complete upload was delivered
+					// What counts is what was delivered. A cut can fall exactly at the
+					// end of a complete, pristine payload whose tail (trailing garbage,
+					// a second frame) never arrived: the statement does not say whether
+					// the missing Content-Length bytes alone make that an error.
+					L, Lok = T[:cut], int64(cut) == d.Size
+					if isZ {
+						L, Lok = gen.DecodeStrict(T[:cut])
+					}
+					if verdict = "reject"; verdictFor(L, Lok, d) == "accept" {
+						verdict = "dontcare"
+						corr += "(complete-prefix)"
+					}
 					waitIdle(s)
 				} else {
 					resp := cl.HTTPPut(s, "/cas/"+d.Hash, hdr, T)
@@ -448,6 +458,11 @@ func TestC01Upload(t *testing.T) {
 				hasNb := wellFormed(d) && d.Size != 0 && rapid.Bool().Draw(t, "neighbour")
 				if hasNb {
 					nb = gen.DrawSmallBlob(t, "nb", 1, 5000)
+				}
+				if hasNb && nb.Hash == d.Hash {
+					hasNb = false // the same blob twice in one batch: nothing to tell apart
+				}
+				if hasNb {
 					nreq := &pb.BatchUpdateBlobsRequest_Request{Digest: &pb.Digest{Hash: nb.Hash, SizeBytes: nb.Size}, Data: nb.Data}
 					if rapid.Bool().Draw(t, "nbFirst") {
 						reqs = []*pb.BatchUpdateBlobsRequest_Request{nreq, req}
